@@ -908,10 +908,18 @@ func (tx *OngoingTx) checkPreconditions(ctx context.Context, st *ImmuStore) erro
 					}
 
 					if eRead.expectedTx == 0 {
-						if err == nil && bytes.Equal(eRead.expectedKey, key) {
-							// key was updated by the transaction
-							key = nil
-							valRef = nil
+						if err == nil {
+							cmp := bytes.Compare(key, eRead.expectedKey)
+
+							if cmp == 0 {
+								// key was updated by the transaction
+								key = nil
+								valRef = nil
+							} else if (cmp < 0) != eReader.spec.DescOrder {
+								// the entry created by the transaction was read at this position,
+								// an entry preceding it was added in the meantime
+								return fmt.Errorf("%w: fetching a different key or an updated one", ErrTxReadConflict)
+							}
 						}
 					} else {
 						if errors.Is(err, ErrNoMoreEntries) {
